@@ -4,3 +4,8 @@ claim('C11', 'proof',
       "Real arithmetic for floats; the jump loop and the construction of the limits list are covered as far as the contracts listed in the evidence reach; numpy indexing as modelled in pyvc/lib.py.",
       "contract-based deductive verification (VC generation over the real AST, z3/cvc5), native replay of counter-models",
       "DESIGN.md 4/C11")
+claim('C19', 'proof',
+      "Every provided d/p/q wrapper (both log forms, explicit and default parameters) is proved equal to the named scipy.stats function with scale = 1/rate etc.; the negative-binomial mean/size form is proved equal to the closed form of nbinom(n, p=size/(size+mu)) with instantiated log identities; every documented seeded generator is proved to draw only from RandomState(seed) (data flow and effect log).",
+      "scipy.stats.<family>.<method>, numpy samplers, gammaln and log are uninterpreted reference functions (scipy is the reference); scipy's closed form of nbinom.logpmf; real arithmetic. The four *nbinom placeholders with an empty body are treated as not provided.",
+      "contract-based deductive verification (straight-line data-flow VCs per wrapper, z3), native replay against scipy",
+      "DESIGN.md 4/C19")
